@@ -29,7 +29,8 @@ if __name__ != '__main__':
 
 GEN_MODULES = ['parallel']
 MODEL_TARGETS = ['model/M_Parallel.vo']
-PROOF_TARGETS = ['proofs/P_Parallel.vo', 'proofs/P_ParallelLoud.vo', 'proofs/P_ParallelTop.vo']
+PROOF_TARGETS = ['proofs/P_Parallel.vo', 'proofs/P_ParallelLoud.vo', 'proofs/P_ParallelTop.vo',
+                 'proofs/P_ParallelPerm.vo']
 LEVEL = 'proof'
 RULE = ('real-process runs of parallelize: ncpu 1..8 x 0..20 tasks x fast/slow assignments of the processes '
         '(incl. late end markers, log records), single faults (worker, task index, kind in raise / exit code / '
@@ -48,6 +49,8 @@ TRUSTED = [
     'numpy.array_split contract (checked here against numpy for n 0..40, k 1..10)',
     'RandomStateService abstract in C09_deterministic (St, draw, mk); the numpy generator itself is not modelled',
     'the fault-injection hook 4168e32 in worker_wrapper (guarded by ICECUBE_SKYLLH_VERIF=1)',
+    'check_structure: the order of the shared-state reads/writes assumed by the step granularity of the model is '
+    'checked on the AST of multiproc.py (7 syntactic checks, fail-closed)',
 ]
 
 IMPORTS = ('From Coq Require Import ZArith List Bool. Import ListNotations.\n'
@@ -114,7 +117,20 @@ def _child(case, wfd):
         rss = RandomStateService(seed=case['seed'])
     t0 = time.time()
     try:
-        r = parallelize(_task, args_list, case['ncpu'], rss=rss)
+        if case.get('trials'):
+            import numpy as np
+            from skyllh.core.analysis import Analysis
+
+            class FakeAnalysis:
+                _cfg = None
+
+                def do_trial(self, rss, **kw):
+                    return np.array([(int(rss.random.randint(0, 2 ** 31)), float(rss.random.uniform()))],
+                                    dtype=[('v', np.int64), ('u', np.float64)])
+            rec = Analysis.do_trials(FakeAnalysis(), rss, n, ncpu=case['ncpu'])
+            r = [[int(a), float(b)] for a, b in zip(rec['v'], rec['u'])]
+        else:
+            r = parallelize(_task, args_list, case['ncpu'], rss=rss)
         out = {'kind': 'result', 'value': r}
     except BaseException as ex:  # noqa
         out = {'kind': 'exc', 'type': type(ex).__name__, 'msg': str(ex)[:300]}
@@ -142,6 +158,8 @@ def runner_main(watchdog):
         if not line:
             continue
         case = json.loads(line)
+        if case.get('trials'):
+            import skyllh.core.analysis  # noqa: F401  (import before the fork, once)
         r, w = os.pipe()
         pid = os.fork()
         if pid == 0:
@@ -262,12 +280,17 @@ def offsets(sizes):
     return out
 
 
-def mk_case(ncpu, ntasks, kind, slow=(), late=(), nlog=0, faults=(), seed=None):
+def mk_case(ncpu, ntasks, kind, slow=(), late=(), nlog=0, faults=(), seed=None, trials=False):
     """slow: pids sleeping at their first task; late: worker pids sleeping between result and end marker;
     faults: dicts {pid, task (local index | None), kind: raise|exit|kill|after, code, channel: hook|func}"""
     case = {'ncpu': ncpu, 'ntasks': ntasks, 'kind': kind, 'slow': sorted(slow), 'late': sorted(late),
-            'nlog': nlog, 'faults': [dict(f) for f in faults], 'seed': seed}
+            'nlog': nlog, 'faults': [dict(f) for f in faults], 'seed': seed, 'trials': bool(trials)}
     specs, plan = {}, []
+    if trials:       # Analysis.do_trials builds the argument list itself: delays only through the hook
+        case['slow'] = sorted(p for p in slow if p > 0)
+        case['specs'] = {}
+        case['plan'] = [{'pid': p, 'task': 0, 'action': f'sleep:{SLOW}'} for p in case['slow']]
+        return case
     if ncpu >= 1 and ntasks > 0:
         sizes = split_sizes(ntasks, ncpu)
         offs = offsets(sizes)
@@ -410,7 +433,7 @@ def canon_model(v):
 # ---- predicates (independent of the model)
 
 def predicates(ctx, case, obs, oc):
-    pub = {k: case[k] for k in ('ncpu', 'ntasks', 'kind', 'slow', 'late', 'nlog', 'faults', 'seed', 'plan', 'specs')}
+    pub = {k: case[k] for k in ('ncpu', 'ntasks', 'kind', 'slow', 'late', 'nlog', 'faults', 'seed', 'trials', 'plan', 'specs')}
     if oc[0] == 'Broken':
         ctx.broken.append({'kind': 'harness', 'error': f'runner gave no observation: {obs}'})
         return
@@ -450,14 +473,19 @@ def rss_oracle(case):
     from skyllh.core.random import RandomStateService
     n, k = case['ntasks'], case['ncpu']
     rss = RandomStateService(seed=case['seed'])
+
+    def one(i, r):
+        if case.get('trials'):
+            return [int(r.random.randint(0, 2 ** 31)), float(r.random.uniform())]
+        return list(_task(i, {}, rss=r))
     if k == 1:
-        return [list(_task(i, {}, rss=rss)) for i in range(n)]
+        return [one(i, rss) for i in range(n)]
     lst = [rss] + [RandomStateService(seed=rss.random.randint(0, 2 ** 32)) for _ in range(1, k)]
     sizes = split_sizes(n, k)
     out, i = [], 0
     for p, s in enumerate(sizes):
         for _ in range(s):
-            out.append(list(_task(i, {}, rss=lst[p])))
+            out.append(one(i, lst[p]))
             i += 1
     return out
 
@@ -478,7 +506,7 @@ def gen_cases(ctx):
     for k in range(1, 9):
         for n in range(0, 21):
             if th:
-                assigns = range(2 ** k) if k <= 5 else sorted(rng.sample(range(2 ** k), 24))
+                assigns = range(2 ** k) if k <= 6 else sorted(rng.sample(range(2 ** k), 40))
             else:
                 assigns = [rng.randrange(2 ** k)]
                 if (k, n) in ((3, 7), (4, 2), (8, 20), (2, 1)):
@@ -488,7 +516,7 @@ def gen_cases(ctx):
                 late = [p for p in range(1, k) if rng.random() < 0.15]
                 cases.append(mk_case(k, n, 'grid', slow=slow, late=late, nlog=rng.choice([0, 0, 1, 2])))
     # B. single faults, exhaustively for small sizes, in two timing contexts
-    sizes_b = [(2, 1), (2, 3), (3, 2), (3, 5), (4, 6)] if not th else \
+    sizes_b = [(2, 1), (2, 3), (3, 2), (3, 4), (3, 5), (4, 6), (5, 7)] if not th else \
         [(k, n) for k in range(2, 6) for n in range(1, 9)]
     kinds = [('raise', 'hook', 1), ('raise', 'func', 1), ('exit', 'hook', 1), ('exit', 'func', 3),
              ('exit', 'hook', 0), ('kill', 'func', -9), ('after', 'hook', 1), ('after', 'hook', 0)]
@@ -501,7 +529,7 @@ def gen_cases(ctx):
                     f = {'pid': p, 'task': t, 'kind': fk, 'code': code, 'channel': ch}
                     others = [q for q in range(k) if q != p]
                     ctxs = [('victim-first', others), ('victim-last', [p])]
-                    if not th and (k, n) == (4, 6):
+                    if not th and (k, n) in ((4, 6), (5, 7)):
                         ctxs = [rng.choice(ctxs)]
                     for (nm, slow) in ctxs:
                         if nm == 'victim-last' and fk == 'after' and cs[p] == 0:
@@ -534,6 +562,13 @@ def gen_cases(ctx):
         slow = rng.sample(range(k), rng.randint(0, k))
         cases.append(mk_case(k, n, 'rss', slow=slow, seed=seed))
         cases.append(mk_case(k, n, 'rss', slow=rng.sample(range(k), rng.randint(0, k)), seed=seed))
+    # F. Analysis.do_trials (result array keeps the order of the list), through the real method
+    for _ in range(ctx.budget(6, 40)):
+        k = rng.randint(1, 5)
+        n = rng.randint(1, 12)
+        seed = rng.randrange(2 ** 31)
+        cases.append(mk_case(k, n, 'do_trials', slow=rng.sample(range(k), rng.randint(0, k)), seed=seed, trials=True))
+        cases.append(mk_case(k, n, 'do_trials', slow=rng.sample(range(k), rng.randint(0, k)), seed=seed, trials=True))
     return cases
 
 
@@ -570,7 +605,7 @@ def judge(ctx, cases, obs, nvariants):
     by = {}
     for case, o in zip(cases, obs):
         if case['seed'] is not None:
-            by.setdefault((case['seed'], case['ncpu'], case['ntasks']), []).append((case, o))
+            by.setdefault((case['seed'], case['ncpu'], case['ntasks'], case.get('trials')), []).append((case, o))
     for key, lst in by.items():
         vals = [json.dumps(o.get('value')) if o.get('kind') == 'result' else None for _, o in lst]
         if any(v is None for v in vals):
@@ -586,7 +621,7 @@ def judge(ctx, cases, obs, nvariants):
             want = f'oracle failed: {ex}'
         ctx.corr_cases += 1
         if vals[0] != want:
-            ctx.disagree(SITE + '.rss', lst[0][0], vals[0][:400], want[:400],
+            ctx.disagree('Analysis.do_trials' if lst[0][0].get('trials') else SITE + '.rss', lst[0][0], vals[0][:400], want[:400],
                          'list differs from the sequential run of the chunks with the per-process seeds')
     if not ctx.model_ok or not exprs:
         return
@@ -636,7 +671,81 @@ def check_array_split(ctx):
             ctx.disagree('numpy.array_split', {'n': n, 'k': k}, want, list(v))
 
 
+def check_structure(ctx):
+    """The order of the reads / writes of shared state that the step granularity of M_Parallel assumes, checked
+    on the source text (fail-closed): all_procs_ended is read before rqueue.get, the exit codes are examined
+    before the all-ended test, pid_proc_ended is read before the log get, the worker puts its result before the
+    end marker and nothing after it, the result is stored under the record's pid and re-assembled by pid."""
+    import ast
+    path = os.path.join(common.REPO, 'skyllh', 'core', 'multiproc.py')
+    bad = []
+
+    def first(body, pred):
+        for i, st in enumerate(body):
+            if pred(st):
+                return i
+        return None
+
+    def has(st, text):
+        return text in ast.unparse(st)
+    try:
+        with open(path) as f:
+            tree = ast.parse(f.read())
+        par = next(n for n in tree.body if isinstance(n, ast.FunctionDef) and n.name == 'parallelize')
+        whiles = {ast.unparse(n.test): n for n in ast.walk(par) if isinstance(n, ast.While)}
+        w = whiles.get('result_received is False')
+        if w is None:
+            bad.append('poll loop `while result_received is False` not found')
+        else:
+            ia = first(w.body, lambda st: isinstance(st, ast.Assign) and has(st.targets[0], 'all_procs_ended'))
+            it = first(w.body, lambda st: isinstance(st, ast.Try) and has(st, 'rqueue.get(block=False)'))
+            if ia is None or it is None or not ia < it:
+                bad.append('all_procs_ended is not evaluated before rqueue.get(block=False) in the poll loop')
+            else:
+                hb = w.body[it].handlers[0].body if w.body[it].handlers else []
+                i1 = first(hb, lambda st: isinstance(st, ast.For) and has(st.iter, 'processes') and has(st, 'raise'))
+                i2 = first(hb, lambda st: isinstance(st, ast.If) and ast.unparse(st.test) == 'all_procs_ended')
+                if i1 is None or i2 is None or not i1 < i2:
+                    bad.append('queue.Empty handler: exit codes of all processes must be examined before the '
+                               'all_procs_ended test')
+        d = whiles.get('not lqueue_end')
+        if d is None:
+            bad.append('log drain loop `while not lqueue_end` not found')
+        else:
+            ia = first(d.body, lambda st: isinstance(st, ast.Assign) and has(st.targets[0], 'pid_proc_ended'))
+            it = first(d.body, lambda st: isinstance(st, ast.Try) and has(st, 'lqueue_list[pid].get('))
+            if ia is None or it is None or not ia < it:
+                bad.append('pid_proc_ended is not evaluated before lqueue_list[pid].get in the drain loop')
+        ww = next((n for n in par.body if isinstance(n, ast.FunctionDef) and n.name == 'worker_wrapper'), None)
+        if ww is None:
+            bad.append('worker_wrapper not found')
+        else:
+            ip = first(ww.body, lambda st: isinstance(st, ast.Expr) and ast.unparse(st).startswith('rqueue.put('))
+            ie = first(ww.body, lambda st: isinstance(st, ast.Expr) and ast.unparse(st) == 'lqueue.put_nowait(None)')
+            if ip is None or ie is None or not ip < ie or ie != len(ww.body) - 1:
+                bad.append('worker_wrapper: rqueue.put(...) must precede lqueue.put_nowait(None), which must be last')
+            elif any(not (isinstance(st, ast.Expr) and ast.unparse(st).startswith('_verif_hook('))
+                     for st in ww.body[ip + 1:ie]):
+                bad.append('worker_wrapper: statements between rqueue.put and the end marker')
+        loop = next((n for n in par.body if isinstance(n, ast.For) and ast.unparse(n.iter) == 'processes'
+                     and has(n, 'result_received')), None)
+        if loop is None or first(loop.body, lambda st: ast.unparse(st) == 'pid_result_list_map[pid] = result_list') is None:
+            bad.append('gather loop: `pid_result_list_map[pid] = result_list` not found')
+        fin = next((n for n in par.body if isinstance(n, ast.For)
+                    and ast.unparse(n.iter) == 'range(len(pid_result_list_map))'), None)
+        if fin is None or [ast.unparse(st) for st in fin.body] != ['result_list += pid_result_list_map[pid]'] \
+                or ast.unparse(fin.target) != 'pid':
+            bad.append('re-assembly `for pid in range(len(pid_result_list_map)): result_list += '
+                       'pid_result_list_map[pid]` not found')
+    except Exception as ex:  # noqa
+        bad.append(f'cannot analyse {path}: {type(ex).__name__}: {ex}')
+    ctx.count('structure-checks', 7)
+    for b in bad:
+        ctx.broken.append({'kind': 'structure', 'file': 'skyllh/core/multiproc.py', 'error': b})
+
+
 def run(ctx):
+    check_structure(ctx)
     watchdog = ctx.budget(20, 60)
     cases = gen_cases(ctx)
     nproc = ctx.budget(6, 8)
@@ -665,7 +774,7 @@ def replay(ctx, rp):
     c = mk_case(case['ncpu'], case['ntasks'], case.get('kind', 'replay'), slow=case.get('slow', ()),
                 late=case.get('late', ()), nlog=case.get('nlog', 0),
                 faults=[{k: v for k, v in f.items() if k != 'triggers'} for f in case.get('faults', [])],
-                seed=case.get('seed'))
+                seed=case.get('seed'), trials=case.get('trials', False))
     cases = [c, c] if c['seed'] is not None else [c]
     obs = run_impl(cases, ctx.budget(20, 60), nproc=1)
     ctx.sample({'case': c, 'observed': obs[0]})
